@@ -17,10 +17,14 @@ QUIRKS = []
 
 def feat(rng):
     r = rng.random()
-    if r < 0.35:   # operand captures
+    if r < 0.15:   # other constructs (items with and without operands carrying times, groups, $not) between definitions and uses:
+        #            any stray capturing parenthesis they emitted would shift the numbers of the judged back-references
+        return RG.Feat(operands=0.55, ocaps=0.45, icaps=0.15, times_item=0.45, groups=0.25, nots=0.2, ogroups=0.2, group_times=0.4,
+                       max_depth=1, max_spine=rng.choice([3, 4, 5, 6]))
+    if r < 0.45:   # operand captures
         return RG.Feat(operands=0.9, ocaps=0.6, groups=0.15, nots=0.1, ogroups=0.15, times_item=0.1, group_times=0.2,
                        max_depth=1, max_spine=rng.choice([2, 3, 4, 6]))
-    if r < 0.55:   # instruction captures
+    if r < 0.62:   # instruction captures
         return RG.Feat(operands=0.5, icaps=0.5, groups=0.15, nots=0.1, max_depth=1, max_spine=rng.choice([2, 3, 4, 5]))
     if r < 0.9:    # register families
         return RG.Feat(operands=0.95, regfam=0.7, ocaps=0.1, groups=0.1, ogroups=0.1, max_depth=1, max_spine=rng.choice([2, 3, 4]))
